@@ -32,8 +32,11 @@ namespace occa {
       typelessArray(),
       memory_(mem) {
 
-      memory_.setDtype(dtype::get<T>());
-      setupTypelessArray(memory_);
+      // An uninitialized memory is the empty array
+      if (memory_.isInitialized()) {
+        memory_.setDtype(dtype::get<T>());
+        setupTypelessArray(memory_);
+      }
     }
     array(const array<T> &other) :
       typelessArray(other),
@@ -102,6 +105,11 @@ namespace occa {
       occa::memory prevMemory = memory_;
       memory_ = device.malloc<T>(size);
 
+      if (!memory_.isInitialized()) {
+        // Resized to the empty array
+        return;
+      }
+
       if (prevMemory.isInitialized()) {
         if (prevMemory.length() < memory_.length()) {
           prevMemory.copyTo(memory_);
@@ -118,6 +126,9 @@ namespace occa {
     }
 
     array clone() const {
+      if (!length()) {
+        return array();
+      }
       return array(memory_.clone());
     }
 
@@ -317,6 +328,13 @@ namespace occa {
     array concat(const array &other) const {
       const udim_t entries = memory_.length();
       const udim_t other_entries = other.memory_.length();
+
+      if (!entries) {
+        return other_entries ? other.clone() : array();
+      }
+      if (!other_entries) {
+        return clone();
+      }
 
       occa::memory ret = getDevice().template malloc<T>(entries + other_entries);
       ret.copyFrom(memory_, entries, 0);
